@@ -54,7 +54,7 @@ def make_config(rng, *, callables=True, dtypes=('float64',), factor_dtypes=(None
                hook=rng.random() < 0.5, acc=rng.randint(1, max_acc),
                pdt=rng.choice(dtypes), fdt=rng.choice(factor_dtypes), idt=rng.choice(inv_dtypes),
                cap=rng.choice([0.0, 1e-6, 0.0005, 25.0]), sym=rng.random() < 0.3,
-               strategy=rng.choice(['COMPUTE', 'MEMORY']), loss=rng.choice(['mse', 'proj', 'lse', 'sum']), batch=rng.randint(1, 8))
+               strategy=rng.choice(['COMPUTE', 'MEMORY', 'compute', 'memory', 'Memory', 'enum:COMPUTE', 'enum:MEMORY']), loss=rng.choice(['mse', 'proj', 'lse', 'sum']), batch=rng.randint(1, 8))
     if intervals == 'divides':
         I = rng.choice([1, 2, 3])
         F = I * rng.choice([1, 1, 2])
@@ -72,8 +72,16 @@ def make_config(rng, *, callables=True, dtypes=('float64',), factor_dtypes=(None
     cfg['kl'] = {'const': ('const', rng.choice([1e-3, 1e-2, 1e-4])), 'big': ('const', 1e9), 'callable': ('lin', 1e-3, 1.0), 'none': ('none',)}[klk]
     cfg['lr'] = ('inv', 0.1) if (callables and rng.random() < 0.3) else ('const', rng.choice([0.1, 1.0, 0.01]))
     cfg['scale'] = rng.choice([1.0, 128.0, 65536.0]) if scaler else None
+    cfg['scaler_object'] = bool(scaler and rng.random() < 0.5)
     cfg['scale_schedule'] = ([rng.choice([1.0, 2.0, 128.0, 512.0, 1024.0, 65536.0]) for _ in range(rng.randint(2, 4))] if (scaler and rng.random() < 0.5) else None)
     return cfg
+
+
+def _strategy(v):
+    if isinstance(v, str) and v.startswith('enum:'):
+        from kfac.enums import AssignmentStrategy
+        return AssignmentStrategy[v[5:]]
+    return v
 
 
 def precond_kwargs(cfg, scale_holder=None):
@@ -81,7 +89,7 @@ def precond_kwargs(cfg, scale_holder=None):
     kw = dict(
         factor_update_steps=mk(cfg['F']), inv_update_steps=mk(cfg['I']), damping=mk(cfg['damping']), factor_decay=mk(cfg['decay']),
         kl_clip=mk(cfg['kl']), lr=mk(cfg['lr']), accumulation_steps=cfg['acc'], allreduce_bucket_cap_mb=cfg['cap'],
-        assignment_strategy=cfg['strategy'] if cfg.get('strategy_as_str', True) else cfg['strategy'],
+        assignment_strategy=_strategy(cfg['strategy']),
         colocate_factors=cfg['colocate'],
         compute_method=(cfg['method'] if cfg['method_as_str'] else ComputeMethod[cfg['method'].upper()]),
         compute_eigenvalue_outer_product=cfg['prediv'], symmetry_aware=cfg['sym'], update_factors_in_hook=cfg['hook'],
@@ -90,6 +98,9 @@ def precond_kwargs(cfg, scale_holder=None):
     if cfg.get('scale'):
         holder = scale_holder if scale_holder is not None else [cfg['scale']]
         kw['grad_scaler'] = lambda: holder[0]
+        if cfg.get('scaler_object') and cfg['scale'] == 1.0 and not cfg.get('scale_schedule'):
+            # a real (disabled, CPU) torch GradScaler object: its get_scale() is 1.0
+            kw['grad_scaler'] = torch.cuda.amp.GradScaler(enabled=False)
     if 'frac' in cfg:
         kw['grad_worker_fraction'] = cfg['frac']
     return kw
